@@ -17,7 +17,7 @@ func init() {
 		ID: "C05",
 		Explanation: "Agreement of the hand-duplicated generic and interface{} families, decided on the type-checked syntax: the twin table is built from the program (every …ForInterface function and every same-named method of StreamDef/StreamForInterfaceDef, MapSetDef/SetForInterfaceDef, StreamSetDef/StreamSetForInterfaceDef, promoted methods included); a missing twin is an unresolved anchor. " +
 			"(R2) the two bodies must have the same normal form after erasing what is inherent to the duplication (local names, type arguments and element types, collection↔underlying conversions, type assertions, the pointer-wrapping idioms, X.AsMap() ≡ *X, the embedded set field, the ForInterface suffix of callees) - the first differing token is reported with both positions; this is a sufficient condition, a one-sided rewrite is reported as 'agreement no longer established'. " +
-			"(R1) the empty/nil-operand contract of the two twins is the same, decided by abstract interpretation of both in an emptiness domain {nil, empty, non-empty} with delegation followed through callees. Not decided: the set-algebra laws themselves for non-empty operands (value level).",
+			"(R1) the empty/nil-operand contract of the two twins is the same, decided by abstract interpretation of both in an emptiness domain {nil, empty, non-empty} with delegation followed through callees. (R3) a structural necessary condition of the algebra laws on slices: membership results must not depend on how often an element is repeated, so no branch may compare the lengths of two different slice operands (a 'bigger list cannot be a subset' shortcut applied to both twins keeps them in agreement and is therefore invisible to R1/R2). Not decided: the set-algebra laws themselves for non-empty operands (value level).",
 		Trusted: append([]string{"the normaliser's rewrite table (each entry erases a difference that cannot change the result on the same data)"}, commonTrusted...),
 		Run:     runC05,
 	})
@@ -96,6 +96,7 @@ func runC05(c *core.Ctx) {
 	p := c.P
 	c.Rule("R1", "twins have the same empty/nil-operand contract (which guard fires and what it returns), evaluated in the emptiness domain with delegation followed", 30)
 	c.Rule("R2", "twin bodies have the same normal form (differences inherent to the duplication erased)", 60)
+	c.Rule("R3", "multiplicity independence: no set operation on slices branches on a comparison between the lengths of two different slice operands (repeated elements make lengths meaningless for membership)", 1)
 	ei := core.ComputeEffects(p)
 	freshIn := func(info *types.Info) func(*ast.CallExpr) bool {
 		return func(call *ast.CallExpr) bool {
@@ -128,6 +129,7 @@ func runC05(c *core.Ctx) {
 		}
 	}
 	pairs := c05pairs(c)
+	c05R3(c, pairs)
 	var keys []string
 	for _, pr := range pairs {
 		keys = append(keys, pr.key)
@@ -251,4 +253,147 @@ var c05exceptions = map[string]string{
 	"StreamDef.Remove~StreamForInterfaceDef.Remove":    "documented difference (property C04): the interface{} Remove is the in-place mutator, the generic one returns a new stream",
 	"StreamSetFromArray~StreamSetFromArrayInterface":   "StreamSetFromArrayInterface is an alias that delegates to StreamSetForInterfaceFromArray, which is itself paired with StreamSetFromArray",
 	"StreamSetFromMap~StreamSetForInterfaceFromMap":    "the interface{} constructor copies entry by entry because the value type changes (map[..]*Stream → map[..]interface{}); the generic one uses DuplicateMap: both wrap a fresh shallow copy",
+}
+
+// c05lenRoots: the slice-typed expressions whose len() the value v depends on (through +,-,* and conversions).
+func c05lenRoots(v ssa.Value, depth int, out map[string]bool) {
+	if v == nil || depth > 6 {
+		return
+	}
+	v = core.Resolve(v)
+	switch x := v.(type) {
+	case *ssa.Call:
+		if core.IsBuiltin(&x.Call, "len") {
+			if _, isSl := x.Call.Args[0].Type().Underlying().(*types.Slice); isSl {
+				out[core.Path(x.Call.Args[0])] = true
+			}
+		}
+	case *ssa.BinOp:
+		c05lenRoots(x.X, depth+1, out)
+		c05lenRoots(x.Y, depth+1, out)
+	case *ssa.Convert:
+		c05lenRoots(x.X, depth+1, out)
+	case *ssa.Phi:
+		for _, e := range x.Edges {
+			if e != ssa.Value(x) {
+				c05lenRoots(e, depth+1, out)
+			}
+		}
+	}
+}
+
+// c05lenCompares returns the branches of f decided by comparing the lengths of two different slices.
+func c05lenCompares(f *ssa.Function) (bad []*ssa.If) {
+	for _, b := range f.Blocks {
+		iff, ok := b.Instrs[len(b.Instrs)-1].(*ssa.If)
+		if !ok {
+			continue
+		}
+		hit := false
+		for _, cnd := range core.ExpandCond(core.Cond{V: iff.Cond, True: true, If: iff}) {
+			cmp, isCmp := core.AsCmp(core.Normalize(cnd))
+			if !isCmp {
+				continue
+			}
+			rx, ry := map[string]bool{}, map[string]bool{}
+			c05lenRoots(cmp.X, 0, rx)
+			c05lenRoots(cmp.Y, 0, ry)
+			for a := range rx {
+				for bb := range ry {
+					if a != bb {
+						hit = true
+					}
+				}
+			}
+		}
+		// a condition that is itself a materialised && / || of comparisons: inspect the operands too
+		if phi, isPhi := iff.Cond.(*ssa.Phi); isPhi && !hit {
+			for _, e := range phi.Edges {
+				if bo, isB := e.(*ssa.BinOp); isB {
+					rx, ry := map[string]bool{}, map[string]bool{}
+					c05lenRoots(bo.X, 0, rx)
+					c05lenRoots(bo.Y, 0, ry)
+					for a := range rx {
+						for bb := range ry {
+							if a != bb {
+								hit = true
+							}
+						}
+					}
+				}
+			}
+		}
+		if hit {
+			bad = append(bad, iff)
+		}
+	}
+	return
+}
+
+const c05snippet = `package snippet
+
+func subsetBad(a, b []int) bool {
+	if len(a) == 0 || len(b) == 0 {
+		return false
+	}
+	if len(a) > len(b) {
+		return false
+	}
+	return true
+}
+func subsetGood(a, b []int) bool {
+	if len(a) == 0 || len(b) == 0 {
+		return false
+	}
+	n := 0
+	for i := 0; i < len(a); i++ {
+		for j := 0; j < len(b); j++ {
+			if a[i] == b[j] {
+				n++
+				break
+			}
+		}
+	}
+	return n == len(a)
+}
+func mapsMay(a, b map[int]int) bool { return len(a) <= len(b) }
+`
+
+func c05R3(c *core.Ctx, pairs []c05pair) {
+	p := c.P
+	if sp, err := core.BuildSnippet(c05snippet); err != nil {
+		c.Unknown("R3", "matcher-selftest", "-", "cannot build the self-test snippet: "+err.Error())
+	} else {
+		nb, ng, nm := len(c05lenCompares(sp.Func("subsetBad"))), len(c05lenCompares(sp.Func("subsetGood"))), len(c05lenCompares(sp.Func("mapsMay")))
+		c.Check(nb == 1 && ng == 0 && nm == 0, "R3", "matcher-selftest", "-", "positive and negative examples recognised", fmt.Sprintf("matcher self-test: flagged %d/%d/%d branches in the bad/good/map examples, expected 1/0/0", nb, ng, nm))
+	}
+	var subjects []*ssa.Function
+	seen := map[*ssa.Function]bool{}
+	for _, pr := range pairs {
+		for _, f := range []*ssa.Function{pr.gen, pr.ifc} {
+			if f != nil && !seen[f] {
+				seen[f] = true
+				subjects = append(subjects, f)
+			}
+		}
+	}
+	for _, h := range core.HelpersOf(p, subjects) {
+		if !seen[h] {
+			seen[h] = true
+			subjects = append(subjects, h)
+		}
+	}
+	n := 0
+	for _, f := range subjects {
+		core.InstrsDeep(f, func(fn *ssa.Function, ins ssa.Instruction) {})
+		fns := []*ssa.Function{f}
+		fns = append(fns, f.AnonFuncs...)
+		for _, fn := range fns {
+			for _, iff := range c05lenCompares(fn) {
+				n++
+				c.Fail("R3", core.FuncName(f)+"/len-compare", p.InstrPos(iff), "the result depends on a comparison between the lengths of two different slice operands: with repeated elements a longer list can still be a subset of (or equal as a set to) a shorter one, so the algebra law fails although both twins agree")
+			}
+		}
+	}
+	c.Check(true, "R3", "scan", "fp.go", fmt.Sprintf("%d twin functions/methods and their helpers scanned, %d length-vs-length branches", len(subjects), n), "")
 }
